@@ -338,6 +338,11 @@ class CallMixin:
             raise OutsideSubset('isinstance with tuple')
         if isinstance(cls_ent, Entity) and cls_ent.kind == 'builtin':
             name = cls_ent.data
+            if name == 'bytes':
+                if isinstance(v.ty, TOpaque):
+                    f = strops.ufun('py_is_bytes_' + v.ty.name, v.ty.sort(), z3.BoolSort())
+                    return f(v.t)
+                return z3.BoolVal(False)
             pred = {'dict': lambda t: isinstance(t, TMap) or (isinstance(t, TRef) and t.cls.startswith('dict:')),
                     'list': lambda t: isinstance(t, TSeq) or (isinstance(t, TRef) and t.cls.startswith('list:')),
                     'str': lambda t: t == TStr, 'int': lambda t: t in (TInt, TBool),
@@ -472,6 +477,11 @@ class CallMixin:
                                    (t == TStr and name in ('lower', 'strip', 'split')) or
                                    (isinstance(t, TMap) and name in ('get', 'keys', 'items', 'values', 'copy')))
             return self.call_method(st, nb, name, args, kw, node)
+        if isinstance(ty, TOpaque) and not isinstance(ty, TFun):
+            c = api.REGISTRY.get(ty.name + '.' + name)
+            if c is None:
+                raise OutsideSubset('no assumed contract for %s.%s' % (ty.name, name))
+            return self.apply_contract(st, c, [recv] + list(args), kw, node)
         if isinstance(ty, TRef):
             cls = static_cls or ty.cls
             if cls.startswith('rxmatch:'):
@@ -605,7 +615,10 @@ class CallMixin:
             return [(st, fresh(TStr, 'join'))]
         if name in ('split', 'rsplit', 'replace', 'format', 'splitlines', 'partition', 'decode', 'encode',
                     'isspace', 'isdigit', 'count'):
-            c = api.REGISTRY.get('str.' + name + ('' if not args else str(len(args))))
+            key_ = name
+            if name in ('split', 'rsplit') and args and args[0].ty != TNone:
+                key_ = name + 'sep'
+            c = api.REGISTRY.get('str.' + key_ + ('' if not args else str(len(args))))
             if c is None:
                 c = api.REGISTRY.get('str.' + name)
             if c is None:
@@ -805,16 +818,8 @@ class CallMixin:
     # ------------------------------------------------------------------
     # object construction
     # ------------------------------------------------------------------
-    def construct(self, st, cls, args, kw, node):
-        cls = self.classes.canon(cls)
-        ctor = api.REGISTRY.get('new:' + cls)
-        if ctor is not None:
-            return self.apply_contract(st, ctor, args, kw, node)
-        if cls.startswith('builtin:'):
-            r = self.new_object(st, cls)
-            return [(st, r)]
-        obj = self.new_object(st, cls)
-        # class-attribute defaults
+    def class_attr_defaults(self, st, obj, cls):
+        """Instance attributes that fall back to class attributes (closed = False, ...)."""
         for f, (dc, fty) in self.classes.all_fields(cls).items():
             if self.classes.is_real(cls):
                 qa, val = self.src.find_class_attr(cls, f)
@@ -825,6 +830,17 @@ class CallMixin:
                         continue
                     arr = self.heap_array(st, (dc, f), fty)
                     st.heap[(dc, f)] = z3.Store(arr, obj.t, box(self.coerce(st, cv, fty)))
+
+    def construct(self, st, cls, args, kw, node):
+        cls = self.classes.canon(cls)
+        ctor = api.REGISTRY.get('new:' + cls)
+        if ctor is not None:
+            return self.apply_contract(st, ctor, args, kw, node)
+        if cls.startswith('builtin:'):
+            r = self.new_object(st, cls)
+            return [(st, r)]
+        obj = self.new_object(st, cls)
+        self.class_attr_defaults(st, obj, cls)
         dc, init = self.classes.find_method(cls, '__init__')
         c = self.classes.contract_for(cls, '__init__')
         if c is None and init is None:
